@@ -56,6 +56,14 @@ def run(check, an: Analysis):
     c03._check_subscribe_protocol(SubCheck(check, 'P', 'Notification'), an)
 
     # ---- P ------------------------------------------------------------------
+    check_until_pairing(check, an, 'P')
+    _run_rest(check, an)
+
+
+def check_until_pairing(check, an: Analysis, rule: str):
+    """an until-block subscribes (its activity, its own signal) to the notification on
+    entry and takes the same pair back when it is closed, by whichever activity that is
+    done; the base class then withdraws the scope's own cancel signal"""
     aenter = an.callee(ISCOPE, '__aenter__')
     init = an.method(ISCOPE, '__init__')
     made = [n for n in ast.walk(init.node) if isinstance(n, ast.Assign)
@@ -67,7 +75,7 @@ def run(check, an: Analysis):
     stored = any(isinstance(n, ast.Assign) and ast.unparse(n.targets[0]) ==
                  'self._notification' and ast.unparse(n.value) == note_param
                  for n in ast.walk(init.node))
-    check.instance('P', 'InterruptScope.__init__:own-signal', ok and stored, where_fn(init),
+    check.instance(rule, 'InterruptScope.__init__:own-signal', ok and stored, where_fn(init),
                    'a fresh CancelScope(self, ...) per scope; the notification is kept')
     pair = None
     for path in an.paths(aenter):
@@ -85,7 +93,7 @@ def run(check, an: Analysis):
             pair = [ast.unparse(a) for a in call.args]
             ok = ok and ast.unparse(call.func.value) == 'self._notification' and \
                 pair == ['self._activity', 'self._interrupt']
-        check.instance('P', 'InterruptScope.__aenter__:subscribes', ok, where_fn(aenter.fn),
+        check.instance(rule, 'InterruptScope.__aenter__:subscribes', ok, where_fn(aenter.fn),
                        'after the base entry, notification.__subscribe__(self._activity, '
                        'self._interrupt): %s' % pair, path=rules.path_lines(path))
     disable = an.callee(ISCOPE, '_disable_interrupts')
@@ -98,7 +106,7 @@ def run(check, an: Analysis):
         chained = any(is_call_to(e, '_disable_interrupts', SCOPE) for e in path.events)
         ok = len(unsubs) == 1 and [ast.unparse(a) for a in unsubs[0].node.args] == pair \
             and ast.unparse(unsubs[0].node.func.value) == 'self._notification' and chained
-        check.instance('P', 'InterruptScope._disable_interrupts:unsubscribes', ok,
+        check.instance(rule, 'InterruptScope._disable_interrupts:unsubscribes', ok,
                        where_fn(disable.fn), 'the same pair is unsubscribed and the base '
                        'implementation (revoke own cancel signal) still runs',
                        path=rules.path_lines(path))
@@ -111,7 +119,7 @@ def run(check, an: Analysis):
             revoked = any(e.kind == 'call' and isinstance(e.node, ast.Call) and
                           rules.text_at(path, e, e.node.func) == 'self._cancel_self.revoke'
                           for e in path.events)
-            check.instance('P', 'Scope._disable_interrupts', off and revoked,
+            check.instance(rule, 'Scope._disable_interrupts', off and revoked,
                            where_fn(base_disable.fn),
                            'marks the scope closed and revokes its cancel signal')
     close = an.callee(ISCOPE, '__aexit__')
@@ -123,10 +131,13 @@ def run(check, an: Analysis):
                     # the first one reached decides which implementation runs
                     resolved |= {c.fn.qn for c in event_callees(event)}
                     break
-    check.instance('P', '_close_scope[InterruptScope]->override',
+    check.instance(rule, '_close_scope[InterruptScope]->override',
                    resolved == {ISCOPE + '._disable_interrupts'}, where_fn(close.fn),
                    'closing an until-scope runs the overriding _disable_interrupts: %s'
                    % sorted(short(r) for r in resolved))
+
+
+def _run_rest(check, an: Analysis):
     unsub = an.callee(NOTIFICATION, '__unsubscribe__')
     forms = {}
     for path in an.paths(unsub):
